@@ -400,3 +400,81 @@ func c06quoteEscape(c *core.Check) {
 	c.Decide(bad == "" && handles, "quote-escape-respects-backslashes", key, c.Prog.Rel(fd.Pos()), "quotes are escaped by a helper that looks at preceding backslashes",
 		"the literal's double quotes are escaped by "+bad+" regardless of a backslash in front of them: the single quoted literal 'a\\\"b' becomes \"a\\\\\"b\", which ends the Go string early — the generated file does not parse")
 }
+
+// c06containerElems: getContainerTypeName decides from value_type_in_container (Features().ValueTypeForSIC) whether the
+// struct-like elements of a container are pointers or values. A constant of such a container is rendered element by element
+// in onSetOrList / onMap; the elements must follow the same decision. Rule: each of the two helpers passes every rendered
+// element through code that reads the same feature flag.
+func c06containerElems(c *core.Check) {
+	pk := c.Prog.Pkg(golangRel)
+	info := pk.TypesInfo
+	tn := c.Prog.FuncDecl(golangRel, "Resolver.getContainerTypeName")
+	if tn == nil {
+		c.Unknown("anchor", golangRel+".(Resolver).getContainerTypeName", "", "missing")
+		return
+	}
+	flags := map[string]bool{}
+	ast.Inspect(tn.Body, func(n ast.Node) bool {
+		if se, ok := n.(*ast.SelectorExpr); ok && strings.HasSuffix(rules.ExprString(se.X), "Features()") {
+			flags[se.Sel.Name] = true
+		}
+		return true
+	})
+	if len(flags) == 0 {
+		c.OKTrivial("container-elem-kind-agrees", golangRel+".(Resolver).getContainerTypeName/flags", c.Prog.Rel(tn.Pos()), "the container type name does not depend on a feature flag")
+		return
+	}
+	readsFlag := func(fd *ast.FuncDecl, flag string, depth int) bool {
+		var rec func(fd *ast.FuncDecl, depth int) bool
+		seen := map[*ast.FuncDecl]bool{}
+		rec = func(fd *ast.FuncDecl, depth int) bool {
+			if fd == nil || fd.Body == nil || seen[fd] || depth > 2 || fd == tn {
+				return false
+			}
+			seen[fd] = true
+			found := false
+			ast.Inspect(fd.Body, func(n ast.Node) bool {
+				if se, ok := n.(*ast.SelectorExpr); ok && se.Sel.Name == flag && strings.HasSuffix(rules.ExprString(se.X), "Features()") {
+					found = true
+				}
+				return true
+			})
+			if found {
+				return true
+			}
+			for _, call := range rules.Calls(fd.Body, false) {
+				fn := rules.Callee(info, call)
+				if fn == nil || fn.Pkg() != pk.Types || fn.Name() == "resolveConst" || fn.Name() == "getTypeName" {
+					continue
+				}
+				name := fn.Name()
+				if sig, ok := fn.Type().(*types.Signature); ok && sig.Recv() != nil {
+					r := strings.TrimPrefix(sig.Recv().Type().String(), "*")
+					name = r[strings.LastIndex(r, ".")+1:] + "." + name
+				}
+				if rec(c.Prog.FuncDecl(golangRel, name), depth+1) {
+					return true
+				}
+			}
+			return false
+		}
+		return rec(fd, depth)
+	}
+	for _, h := range []string{"onSetOrList", "onMap"} {
+		fd := c.Prog.FuncDecl(golangRel, "Resolver."+h)
+		if fd == nil {
+			c.Unknown("anchor", golangRel+".(Resolver)."+h, "", "missing")
+			continue
+		}
+		var missing []string
+		for f := range flags {
+			if !readsFlag(fd, f, 0) {
+				missing = append(missing, f)
+			}
+		}
+		sort.Strings(missing)
+		c.Decide(len(missing) == 0, "container-elem-kind-agrees", golangRel+".(Resolver)."+h+"/elements", c.Prog.Rel(fd.Pos()),
+			"rendered elements follow the feature flag(s) the container's type name depends on",
+			fmt.Sprintf("the container's Go type depends on %v but %s renders its elements without looking at it: under value_type_in_container a constant list of structs is rendered []P{&P{…}} and does not compile", missing, h))
+	}
+}
